@@ -331,3 +331,81 @@ CONTRACTS += [
     Contract('data.restore', PROPS, ['qvm.machine:DataDevice._exec_restore'], body_restore,
              cases=[(pl, k) for pl in [(1,), (1, 2)] for k in range(len(pl))]),
 ]
+
+
+# ------------------------------------------------------------------ READ into a numeric variable
+
+KF_DOUBLE_INF = 'KF-C01-double-overflow-inf'
+TNAME = {1: 'INTEGER', 2: 'LONG', 3: 'SINGLE', 4: 'DOUBLE'}
+
+
+def body_read_numeric(h, tid):
+    """READ into a numeric variable of type id `tid` from an item text: an empty item reads as 0; a numeric text is
+    converted to the variable's type exactly as an assignment of that number would (round to nearest-even for the
+    integer types, Overflow if it does not fit); any other text is a run-time error.  "Numeric text" is what CPython's
+    float() accepts (assumed contract); int() accepts a subset with the same value."""
+    from contracts.c_input import c_int_ok, c_int_val, c_float_ok, c_float_val, ASSUMED
+    from spec import qb_expr, qb_num
+    cpu, dev, flat = mk_device(h, (1,), 0, 0)
+    item = flat[0]
+    cpu.stack.append(lcell_int(tid))
+    out = h.call(dev.execute, 'read')
+    tn = TNAME[tid]
+    ct = getattr(CT, tn)
+    if item is Empty.value:
+        if not out.returned:
+            h.prove('empty_item.no_exception', False, detail=repr(out))
+            return
+        cells = stack_after(h, cpu, 1)
+        if cells:
+            prove_cell(h, 'empty_item_reads_as_zero', cells[0], ct, 0 if tid in (1, 2) else 0.0)
+        return
+    iok, fok = c_int_ok(h, item), c_float_ok(h, item)
+    if h.symbolic:
+        # assumed CPython fact: a text int() accepts is accepted by float() too
+        h.assume(implies(iok, fok), 'every text accepted by int() is accepted by float()')
+    numeric = h.branch(fok)
+    if not numeric:
+        ok = out.raised(Trapped) and out.exc.trap_code == TrapCode.DEVICE_ERROR
+        h.prove('text_into_numeric_variable_is_a_run_time_error', ok, detail=repr(out))
+        stack_after(h, cpu, 0, tag='stack_after_error')
+        return
+    if tid in (1, 2):
+        if h.branch(iok):
+            v = c_int_val(h, item)
+            lo, hi = (-32768, 32767) if tid == 1 else (-2 ** 31, 2 ** 31 - 1)
+            conv = ('ok', v) if h.branch(land(lo <= v, v <= hi)) else ('overflow',)
+        else:
+            conv = h.spec(qb_expr.convert, c_float_val(h, item), 'DOUBLE', tn)
+    else:
+        conv = h.spec(qb_expr.convert, c_float_val(h, item), 'DOUBLE', tn)
+    known = None
+    if tid == 4:
+        fv = c_float_val(h, item)
+        known = [(KF_DOUBLE_INF, h.spec(qb_num.is_inf, fv) if h.symbolic else (fv != fv or fv in (float('inf'), float('-inf'))))]
+    if not out.returned:
+        ok = out.raised(Trapped) and out.exc.trap_code == TrapCode.INVALID_CELL_VALUE
+        h.prove('numeric_item_only_fails_with_overflow', ok, detail=f'{item!r}: {out!r} {getattr(out.exc, "trap_code", None)} {getattr(out.exc, "trap_kwargs", None)}')
+        if ok:
+            h.prove('overflow_only_if_the_number_does_not_fit', conv[0] != 'ok')
+        return
+    h.prove('number_that_does_not_fit_is_overflow', conv[0] == 'ok', known=known)
+    if conv[0] != 'ok':
+        return
+    cells = stack_after(h, cpu, 1)
+    if cells:
+        prove_cell(h, 'numeric_item_converted_to_the_variable_type', cells[0], ct, conv[1])
+    h.prove('cursor_advances', land(dev.data_part == 1, dev.data_idx == 0))
+
+
+def _assumed():
+    from contracts.c_input import ASSUMED
+    return ASSUMED
+
+
+CONTRACTS += [
+    Contract('data.read_numeric', PROPS + ['C07', 'C01'], ['qvm.machine:DataDevice._exec_read', 'qvm.machine:Device.execute'],
+             body_read_numeric, cases=[(t,) for t in (1, 2, 3, 4)], assumed=_assumed(),
+             trusted=['int(str)/float(str): acceptance and value are uninterpreted functions of the text (assumed CPython contract); '
+                      'every text int() accepts float() accepts']),
+]
